@@ -3,6 +3,7 @@ package props
 import (
 	"fmt"
 	"math/big"
+	"strings"
 	"time"
 
 	"c4emc/explore"
@@ -55,6 +56,7 @@ type vestCfg struct {
 	pools           []string
 	poolDefs        []poolDef // explicit create-pool events (instead of owners x pools x poolSpecs)
 	sendRestartBoth bool
+	withUpper       bool // the first owner also sends its messages with its address spelled in upper-case bech32
 }
 
 type poolDef struct {
@@ -177,6 +179,31 @@ func vestEvents(c vestCfg) []Ev {
 		evs = append(evs, mkSend(o0, p0, "3", o0, true))
 		evs = append(evs, mkSend(o0, "nopool", "3", "fresh", true))
 	}
+	if c.withUpper {
+		// bech32 is case-insensitive as long as the case is not mixed: the upper-case spelling passes
+		// ValidateBasic, names the same signer and must reach the same pools
+		up := func() string { return strings.ToUpper(harness.AddrS(o0)) }
+		ps := poolSpec{10, 5 * time.Second, "t5"}
+		if len(c.poolSpecs) > 0 {
+			ps = c.poolSpecs[0]
+		}
+		for _, p := range c.pools {
+			p := p
+			evs = append(evs, Ev{Name: fmt.Sprintf("pool(%s^upper,%s,%d,%s,%s)", o0, p, ps.amount, ps.dur, ps.vtype), Build: func(v View) (sdk.Msg, string) {
+				return vtypes.NewMsgCreateVestingPool(up(), p, sdk.NewInt(ps.amount), ps.dur, ps.vtype), o0
+			}})
+		}
+		evs = append(evs, Ev{Name: "withdraw(" + o0 + "^upper)", Build: func(v View) (sdk.Msg, string) {
+			return vtypes.NewMsgWithdrawAllAvailable(up()), o0
+		}})
+		evs = append(evs, Ev{Name: fmt.Sprintf("send(%s^upper.%s,3,->fresh,restart=true)", o0, p0), Build: func(v View) (sdk.Msg, string) {
+			_, to := freshAddr(v)
+			if to == "" {
+				return nil, ""
+			}
+			return vtypes.NewMsgSendToVestingAccount(up(), to, p0, sdk.NewInt(3), true), o0
+		}})
+	}
 	if c.withExtra {
 		evs = append(evs, Ev{Name: "createVA(A->fresh,4)", Build: func(v View) (sdk.Msg, string) {
 			_, to := freshAddr(v)
@@ -269,6 +296,13 @@ func vestStep(prop string) func(si *StepInfo) (interface{}, []*explore.Violation
 		bad := func(sig, f string, a ...interface{}) {
 			vs = append(vs, &explore.Violation{Property: prop, What: fmt.Sprintf(f, a...), Sig: prop + ":" + sig})
 		}
+		if o := msgOwner(si.Msg); o != "" && !canonicalAddr(o) {
+			// The property speaks about pools and coins, not about which spelling of an address finds
+			// which pools: a message whose owner is spelled unusually is not predicted; the model is
+			// re-read from the implementation and the state invariant (module balance = sum of pool
+			// remainders) decides.
+			return newPoolModel(si.W, si.Post), nil
+		}
 		now := si.Pre.BlockTime()
 		n := m.Clone()
 		pred := ref.PredAny
@@ -318,6 +352,23 @@ func vestStep(prop string) func(si *StepInfo) (interface{}, []*explore.Violation
 		}
 		return n, vs
 	}
+}
+
+func canonicalAddr(s string) bool {
+	a, err := sdk.AccAddressFromBech32(s)
+	return err == nil && a.String() == s
+}
+
+func msgOwner(m sdk.Msg) string {
+	switch msg := m.(type) {
+	case *vtypes.MsgCreateVestingPool:
+		return msg.Owner
+	case *vtypes.MsgWithdrawAllAvailable:
+		return msg.Owner
+	case *vtypes.MsgSendToVestingAccount:
+		return msg.Owner
+	}
+	return ""
 }
 
 var trackedAddrs map[string]bool
